@@ -83,6 +83,9 @@ def check(run):
     from . import C03 as _C03
     _C03.ob_thresholds_creation(run, "O18.8a")
     _C03.ob_inputs(run, "O18.8b")
+    # "a node that receives only this bundle reaches the same ready parents": the receiver stores every certificate of the bundle it does not
+    # hold yet - a received certificate is a duplicate iff one of its OWN type (for the same block, for notar-fallback) is held (C03 O3.3)
+    _C03.ob_once(run, "O18.8c")
     from . import detectors as _DL
     _DL.ob_loop_exits(run, "O18.7", ['consensus::pool', 'consensus::votor'], 'the recovery bundle contains every certificate and vote and each is re-broadcast: a loop that stops early sends a partial bundle')
     # "a node that receives only this bundle reaches ... the same ready parents for the following window": the receiver's ready
